@@ -24,7 +24,7 @@ plan = {
  "manifest": {
   "claimed": True,
   "technique": "bounded model checking (CBMC) of the real policy.c tables and engine over symbolic rule outcomes, the real document / level rules on typed objects, and the real wrapper functions over a stubbed verifier",
-  "level_text": "(1) h5_policies: for each of the six verifying predefined policies (internal, calendar-based, key-based, publications-file-based, user-publication-based, general) the REAL rule tables and Rule_verify are executed with the document-hash rules and the level rule answering from four symbolic facts and EVERY other leaf rule returning an arbitrary (status, OK/NA/FAIL, code): the policy reports OK only if the document hash equals the signed one (or none is given) and the level fits; another algorithm gives exactly (KSI_OK, FAIL, GEN-04), another digest (KSI_OK, FAIL, GEN-01), a larger level (KSI_OK, FAIL, GEN-03), a level above 255 KSI_INVALID_VERIFICATION_INPUT; the document rules are the first rules consulted and nothing else is consulted after a mismatch. (2) h1_doc: the five real rules on typed signatures (with / without RFC3161 record, first link with / without level correction) return exactly the reference verdicts for all document hashes of the enumerated length classes (20/28/32/48/64-byte digests, equal or other class, every algorithm id libksi accepts, all digest bytes symbolic - this includes every single-bit difference) and all 64-bit levels and level corrections; signed hash = RFC3161 input hash if present. (3) h6_wiring / h6_document: KSI_Signature_verifyDocument hashes exactly the document bytes with the algorithm of the signed hash and passes that imprint on; KSI_Signature_verifyWithPolicy and KSI_verifyDataHash hand policy, signature, document hash and level to KSI_SignatureVerifier_verify unchanged, refuse levels above 255 themselves, and return KSI_OK exactly for (KSI_OK, verdict OK).",
+  "level_text": "(1) h5_policies: for each of the six verifying predefined policies (internal, calendar-based, key-based, publications-file-based, user-publication-based, general) the REAL rule tables and Rule_verify are executed with the document-hash rules and the level rule answering from four symbolic facts and EVERY other leaf rule returning an arbitrary (status, OK/NA/FAIL, code): the policy reports OK only if the document hash equals the signed one (or none is given) and the level fits; another algorithm gives exactly (KSI_OK, FAIL, GEN-04), another digest (KSI_OK, FAIL, GEN-01), a larger level (KSI_OK, FAIL, GEN-03), a level above 255 KSI_INVALID_VERIFICATION_INPUT; the document rules are the first rules consulted and nothing else is consulted after a mismatch. (2) h1_doc: the five real rules on typed signatures (with / without RFC3161 record, first link with / without level correction) return exactly the reference verdicts for all document hashes of the enumerated length classes (20/28/32/48/64-byte digests, equal or other class, every algorithm id libksi accepts, all digest bytes symbolic - this includes every single-bit difference) and all 64-bit levels and level corrections; signed hash = RFC3161 input hash if present. (3) h6_wiring / h6_document: KSI_Signature_verifyDocument hashes exactly the document bytes with the algorithm of the signed hash and passes that imprint on; KSI_Signature_verifyWithPolicy and KSI_verifyDataHash hand policy, signature, document hash and level to KSI_SignatureVerifier_verify unchanged (with a caller-supplied verification context: no document hash or level supplied through the arguments or the context is dropped, contradicting hashes are refused), refuse levels above 255 themselves, and return KSI_OK exactly for (KSI_OK, verdict OK).",
   "level_note": "Decomposition: (1) assumes that the five document / level rules behave as their stubs, which is what (2) establishes on typed objects; composition by hand. Rule_verify's bookkeeping list is off in (1) (its result is ignored by Rule_verify). (3) stubs the verifier, KSI_PolicyVerificationResult_free and KSI_VerificationContext_init (body copied from policy.c) and runs the real base.c error stack with a ring of one entry; KSI_Signature_verifyDocument is covered by h6_document with the count-only error model of env/ctx.c. Hash objects of a length that matches no algorithm cannot be constructed through the API and are outside the claim. See MUTATIONS.md."
  },
  "harnesses": [
@@ -37,10 +37,10 @@ plan = {
    "functions": ["Rule_verify", "Policy_verifySignature", "internalRules", "calendarBasedRules", "keyBasedRules", "publicationsFileBasedRules", "userProvidedPublicationBasedRules", "generalRules"],
    "bound": "per policy: all combinations of the four document / level facts x arbitrary outcomes of all 63 other leaf rules",
    "instances": [{"label": l, "defines": ["POLICY=%d" % i]} for i, l in enumerate(["internal", "calendar", "key", "pubfile", "userpub", "general"])]},
-  {"name": "h6_wiring", "src": "h6_wiring.c", "env": [], "tus": ["signature_helper", "base", "compatibility"], "unwind": 4, "unwindset": ["strncpy.0:1030"], "timeout": 300,
-   "functions": ["KSI_Signature_verifyWithPolicy", "KSI_verifyDataHash", "KSI_ERR_push", "KSI_ERR_clearErrors"],
-   "bound": "all document hashes (present / absent), all 64-bit levels, all verifier outcomes (any status, OK/NA/FAIL)",
-   "instances": [{"label": "verifyWithPolicy", "defines": ["ENTRY=0"]}, {"label": "verifyDataHash", "defines": ["ENTRY=1"]}]},
+  {"name": "h6_wiring", "src": "h6_wiring.c", "env": [], "tus": ["signature_helper", "base", "compatibility", "hash"], "unwind": 4, "unwindset": ["strncpy.0:1030"], "timeout": 300,
+   "functions": ["KSI_Signature_verifyWithPolicy", "KSI_verifyDataHash", "KSI_DataHash_equals", "KSI_ERR_push", "KSI_ERR_clearErrors"],
+   "bound": "all document hashes (present / absent), all 64-bit levels, all verifier outcomes (any status, OK/NA/FAIL); with a caller context: document hash present/absent in argument and context (equal or different values), all 64-bit levels in both",
+   "instances": [{"label": "verifyWithPolicy", "defines": ["ENTRY=0"]}, {"label": "verifyDataHash", "defines": ["ENTRY=1"]}, {"label": "verifyWithPolicy_ctx", "defines": ["ENTRY=2"]}]},
   {"name": "h6_document", "src": "h6_document.c", "env": ENV, "global_defines": ["HM_LOG_MAX=72", "HM_REC_MAX=2"], "tus": ["signature_helper", "signature", "hashchain", "hash"], "unwind": 6, "timeout": 300, "object_bits": 12,
    "functions": ["KSI_Signature_verifyDocument", "KSI_Signature_getHashAlgorithm", "KSI_Signature_getDocumentHash", "KSI_DataHash_create", "KSI_Signature_verifyWithPolicy"],
    "bound": "documents of 0, 3 and 8 bytes (all bytes symbolic); signed hash SHA2-256 / SHA-1 / SHA2-512 taken from the first chain or from the RFC3161 record; all verifier outcomes",
